@@ -239,6 +239,13 @@ m("M10d_index_one", ["C10"], [("pdf/src/xref.rs", "            index: vec![0, si
 m("M10e_entries_unbounded", ["C10"], [("pdf/src/xref.rs", "        for &x in self.entries.iter().take(size) {", "        for &x in self.entries.iter() {")], expect="C10-SIB", note="more entries than /Size when promises exist beyond the xref id")
 m("M10f_header", ["C10"], [("pdf/src/file.rs", 'backend: Vec::from(&b"%PDF-1.7\\n"[..]),', 'backend: Vec::from(&b"\\n%PDF-1.7\\n"[..]),')], expect="C10-G1")
 
+# ------------------------------------------------------------------ C11
+m("M11a_slice_end", ["C11"], [("pdf/src/object/stream.rs", "            self.inner.info.first + self.offsets[index + 1]\n        };", "            self.inner.info.first + self.offsets[index]\n        };")], expect="C11-G2")
+m("M11b_stream_any_flags", ["C11"], [("pdf/src/file.rs", "                    parse(slice, resolve, flags)\n", "                    parse(slice, resolve, ParseFlags::ANY)\n")], expect="C11-SIB", note="compressed objects bypass the caller's type filter")
+m("M11c_last_member", ["C11"], [("pdf/src/object/stream.rs", "let end = if index == self.offsets.len() - 1 {", "let end = if index + 1 >= self.offsets.len() - 1 {")], expect="C11-G2", note="second-to-last member extends to the end of the data")
+m("M11d_length_any", ["C11"], [("pdf/src/parser/mod.rs", "t!(t!(r.resolve_flags(reference, ParseFlags::INTEGER, 1)).as_usize())", "t!(t!(r.resolve_flags(reference, ParseFlags::ANY, 1)).as_usize())")], expect="C11-G3", note="filter widened: a /Length pointing at a stream object makes the resolver parse that stream (recursion)")
+m("M11e_first_dropped", ["C11"], [("pdf/src/object/stream.rs", "        let start = self.inner.info.first + self.offsets[index];", "        let start = self.offsets[index];")], expect="C11-G2")
+
 
 def gen_patch(mu):
     files = {}
